@@ -83,7 +83,7 @@ func (its *ordaMap) Put(key string, value interface{}) (interface{}, errors.Orda
 	if key == "" || value == nil {
 		return nil, errors.DatatypeIllegalParameters.New(its.L(), "neither empty key nor null value is not allowed")
 	}
-	jsonSupportedType := types.ConvertToJSONSupportedValue(value)
+	jsonSupportedType := types.NormalizeValue(value)
 	if jsonSupportedType == nil {
 		return nil, errors.DatatypeIllegalParameters.New(its.L(), "neither empty key nor null value is not allowed")
 	}
